@@ -12,11 +12,14 @@ def _nn(v):
     return np.inf if np.isnan(v) else v
 
 
-TECHNIQUE = 'Coq/mathcomp proof that Ritz values are bounded by the spectral radius + bit-exact utility-kernel correspondence + definition oracle per storage format'
-LEVEL_TEXT = ('Kernel-checked theorem (Props/C19.v, mathcomp, any real field): for a symmetric matrix, an orthonormal basis V '
+TECHNIQUE = 'Coq proofs (Ritz values bounded by the spectral radius; scaling and filtering kernels equal their definitions) + bit-exact utility-kernel correspondence + definition oracle per storage format'
+LEVEL_TEXT = ('Kernel-checked theorems (Props/C19.v).  Mathcomp, any real field: for a symmetric matrix, an orthonormal basis V '
               'and H = V^T A V, every eigenvalue of H with a nonzero eigenvector is bounded in modulus by any bound of the '
               'numerical range of A -- the exact-arithmetic reason why the Arnoldi/Lanczos spectral-radius estimate never '
-              'exceeds the true spectral radius.  The Gallina models of csc_scale_rows/columns, filter_matrix_rows (with '
+              'exceeds the true spectral radius.  Unbounded, any scalar type and any valid matrix of any size: the models of the '
+              'CSC row / column scaling kernels multiply every stored entry by the scale of its row / column and change nothing '
+              'else, and the diagonal-relative row filter (no lumping) zeroes in row r exactly the entries with |a| < theta |a_rr|.  '
+              'The Gallina models of csc_scale_rows/columns, filter_matrix_rows (with '
               'and without lumping) and truncate_rows_csr (with its in-place two-array quicksort) must agree bit-for-bit '
               'with the rebuilt working-tree kernels; an oracle checks every utility against its definition in CSR / CSC '
               '/ BSR / COO storage (scaling = product with the diagonal matrix, copy semantics, block diagonal and block '
@@ -31,7 +34,7 @@ RULE = ('random sparse matrices n<=9 in CSR/CSC/BSR/COO with integer, dyadic and
         'Hermitian matrices x seeds (estimate <= rho(1+1e-10), >= 0.9 rho); condest on small dense symmetric / '
         'nonsymmetric real / complex matrices.  Non-trivial: at least one off-diagonal entry.')
 TRUSTED = ['SciPy sparsetools csr/bsr scale kernels, format conversions', 'NumPy eigvals/svd on the oracle side']
-PARTIAL = ['the 0.9 lower bound of the spectral-radius estimate: oracle only', 'utility definitions: correspondence + oracle, no theorem']
+PARTIAL = ['the 0.9 lower bound of the spectral-radius estimate: oracle only', 'block diagonal / inverse, diagonals, symmetric rescaling, truncation, lumping filter, filtering projection: correspondence + oracle, no theorem']
 HEADER = ('From Coq Require Import ZArith List PrimFloat.\nImport ListNotations.\n'
           'Require Import PV.Base.Ops PV.Model.UtilsRun.\nOpen Scope Z_scope.\n')
 I32 = np.int32
